@@ -69,7 +69,7 @@ c.finish(
         "object syntax is abstract in the proofs: parse (fmt o ++ LF :: rest) = (norm o, LF :: rest) is C01's theorem; the instance that is run uses a canonical formatter",
         "ciphers, filter encoders and zlib are Section variables with dec(enc x) = x; random IVs are a fixed function per Section",
         "the moment a filter chain hands 1024 bytes to the stream writer is angelic input (observed from the sink), it only decides when the indirect /Length object is allocated",
-        "values are compared after norm (nil array = null, null dictionary entries absent); a *Stream Put while a stream is open, a dictionary that already has /Filter when filters are passed, and sparse object numbers under an xref stream are registered findings",
+        "values are compared after norm (nil array = null, null dictionary entries absent); a stream whose dictionary already declares /Filter is compared on the data after the whole chain has been decoded (the caller pre-encodes), and only its kind is compared with the model",
     ],
     trusted=[
         "hand-written Gallina models coq/C02/Writer.v, Reader.v of writer.go/xref.go/reader.go, tied by correspondence in both directions",
@@ -78,6 +78,6 @@ c.finish(
     partial=[
         "write_read_partial (full statement: Definition write_read_full): proved for Reader.get over the writer's final cross-reference map and the bytes of the file - null for every reference without an in-use entry of its generation, the normalised object for direct objects, dictionary and raw data for streams under all three /Length strategies (the indirect length object is itself read back). Not proved, executed on every case instead (model reader on model writer output = record; real Reader on model files; real Reader on real files = model record): Reader.open (startxref, parsing the xref table / xref stream back into the map), members of object streams, and the filter chain read back from /Filter,/DecodeParms (C06).",
         "no_alias_write_inplace_refuted, put_twice_inplace_refuted, append_filter_direct_refuted: the unsafe variants (F1 in-place RC4; append on the caller's slice) are refuted, the variants the code uses now are proved safe.",
-        "write_read needs two guards that are findings of the implementation: no /Filter in a dictionary handed to OpenStream together with filters (F21), and /Size within the reader's entry budget for xref streams (F18); a *Stream Put during an open stream makes the model (like the code) fail (F20).",
+        "write_read_full carries one guard: no /Filter in a dictionary handed to OpenStream (such data is pre-encoded by the caller and a reader decodes that chain too). F18, F32, F33 are fixed; sparse object numbers, deferred *Stream Puts and pre-existing /Filter plus filters are generated on every run as hard requirements.",
     ],
 )
